@@ -309,7 +309,9 @@ def gen(ctx):
             big = [ms, ms + 1, ms - 1, 2 ** 63, SIZE_MAX, 2 ** 64 // sT + 1, (2 ** 64 + 8 * sT - 1) // sT]
             big = [b for b in big if 0 <= b <= SIZE_MAX and b * sT >= 2 ** 47]
             small = [0, 1, 2, 3, 7, 16, 100, 1000]
+            mid = sorted(set(max(1, b // sT) + d for b in (4096, 65536, 1 << 20, (1 << 22) - 4096) for d in (0, 1)))   # whole extent written, usable size checked
             pre = "%s %d %d %s" % (kind, sT, aT, "" if al is None else "%d " % al)
+            cases.append(pre + " ".join("a%d f0" % n for n in mid if n * sT <= WRITE_LIMIT))
             cases.append(pre + " ".join(["a%d" % n for n in small + big] + ["f0"] * len(small)))
             for w in range(2 if quick else 10):
                 ops, nlive = [], 0
@@ -442,6 +444,8 @@ def sig_of(case, impl_line, verdict):
             op = ops[k]
             if op[0] == 'a' and tok.startswith("ok") and int(op[1:]) * sT + 2 * PAGE > SIZE_MAX:
                 return "C15:%s:alloc:size-overflow" % kind
+            if op[0] == 'a' and tok.startswith("ok") and int(op[1:]) * sT >= 2 ** 47:
+                return "C15:%s:served-unservable-request" % kind
             if op[0] == 'f' and tok.startswith("ABORT(memory_block_not_found"):
                 try:
                     ev = parse_events(ops[:k + 1], succeeds_fn(kind, par), zfrees_fn(kind))
@@ -458,6 +462,8 @@ def sig_of(case, impl_line, verdict):
         return "C15:malloc:misaligned:overaligned-type"
     if fl:
         return "C15:%s:%s" % (kind, fl.group(1))
+    if "unservable" in verdict:
+        return "C15:%s:served-unservable-request" % kind
     if "max_size" in verdict:
         return "C15:%s:served-beyond-max_size" % kind
     if "destructor" in verdict:
